@@ -96,7 +96,11 @@ func (p *Pipeline) Snapshot(reqs []Request, snis []string) *Snapshot {
 			if x.Weight == 0 {
 				w = "drain"
 			}
-			srvs = append(srvs, fmt.Sprintf("%s:%d=%s", x.Addr, x.Port, w))
+			o := ""
+			if x.Opts != "" {
+				o = "{" + x.Opts + "}"
+			}
+			srvs = append(srvs, fmt.Sprintf("%s:%d=%s%s", x.Addr, x.Port, w, o))
 		}
 		sort.Strings(srvs)
 		s.Servers[name] = srvs
@@ -189,7 +193,240 @@ func (p *Pipeline) Snapshot(reqs []Request, snis []string) *Snapshot {
 		s.Skipped = append(s.Skipped, k)
 	}
 	sort.Strings(s.Skipped)
+	s.canonAuth(cfg)
 	return s
+}
+
+var (
+	authBackRe  = regexp.MustCompile(`\b_auth_backend\d+_\d+\b`)
+	authProxyRe = regexp.MustCompile(`\b_auth_\d+\b`)
+	soIDRe      = regexp.MustCompile(`\bso_id (\d+)\b`)
+	bindIDRe    = regexp.MustCompile(`^(\s*)bind 127\.0\.0\.1:(\d+) id (\d+)\b`)
+	bindLocalRe = regexp.MustCompile(`^\s*bind 127\.0\.0\.1:(\d+)\s*$`)
+	localAddrRe = regexp.MustCompile(`\b127\.0\.0\.1:(\d+)\b`)
+)
+
+// canonAuth renames the internal labels of external authentication: the auth backends `_auth_backendNNN_<port>`
+// (numbered in the order the targets were first met) are named after their servers, the local auth proxies
+// `_auth_<port>` (ports handed out from the auth-proxy range in processing order), their bind lines and socket ids
+// after the auth backend they forward to.  Which target a path is authenticated by is behaviour and stays visible;
+// the numbering is a label (C01: "auth-proxy port numbering may differ").
+func (s *Snapshot) canonAuth(cfg *Config) {
+	ren := map[string]string{}
+	for name := range s.Servers {
+		if authBackRe.FindString(name) == name {
+			ren[name] = "_auth_backend<" + strings.Join(s.Servers[name], ",") + ">"
+		}
+	}
+	port2back := map[string]string{}
+	id2port := map[string]string{}
+	authFront := map[string]bool{}
+	for fname, fe := range cfg.Frontends {
+		var ports, uses []string // binds on 127.0.0.1 whose port names a backend `_auth_<port>`; unconditional use_backend lines
+		for _, l := range fe.Lines {
+			txt := strings.Join(l, " ")
+			if m := bindIDRe.FindStringSubmatch(txt); m != nil {
+				id2port[m[3]] = m[2]
+				ports = append(ports, m[2])
+			} else if m := bindLocalRe.FindStringSubmatch(txt); m != nil {
+				if _, ok := cfg.Backends["_auth_"+m[1]]; ok {
+					ports = append(ports, m[1])
+				}
+			}
+		}
+		if len(ports) == 0 {
+			continue
+		}
+		for _, l := range fe.Lines {
+			if len(l) >= 2 && l[0] == "use_backend" {
+				if m := soIDRe.FindStringSubmatch(strings.Join(l, " ")); m != nil {
+					if p, ok := id2port[m[1]]; ok {
+						port2back[p] = l[1]
+						authFront[fname] = true
+					}
+				} else if len(l) == 2 {
+					uses = append(uses, l[1])
+				}
+			}
+		}
+		if len(ports) == 1 && len(uses) == 1 {
+			// a single proxy: no socket ids, one unconditional use_backend
+			port2back[ports[0]] = uses[0]
+			authFront[fname] = true
+		}
+	}
+	// an auth proxy no rule refers to, and an auth backend only such proxies forward to, are leftovers the controller
+	// removes lazily (frontend.go RemoveAuthBackendExcept runs when the port range is exhausted): not behaviour —
+	// nothing can reach them (the proxies listen on 127.0.0.1) — so they are dropped from the normal form
+	refText := func() string {
+		var b strings.Builder
+		for _, v := range s.Routes {
+			b.WriteString(v + "\n")
+		}
+		for _, ls := range s.Backends {
+			for _, l := range ls {
+				b.WriteString(l + "\n")
+			}
+		}
+		cur := ""
+		for _, l := range s.Static {
+			if !strings.HasPrefix(l, "  ") {
+				cur = l
+				continue
+			}
+			f := strings.Fields(cur)
+			if len(f) == 2 && f[0] == "frontend" && authFront[f[1]] {
+				continue
+			}
+			b.WriteString(l + "\n")
+		}
+		return b.String()
+	}()
+	deadPort := map[string]bool{}
+	liveBack := map[string]bool{}
+	for port, back := range port2back {
+		if regexp.MustCompile(`\b_auth_` + port + `\b`).MatchString(refText) {
+			liveBack[back] = true
+		} else {
+			deadPort[port] = true
+		}
+	}
+	deadName := map[string]bool{}
+	for port := range deadPort {
+		deadName["_auth_"+port] = true
+	}
+	for name := range ren {
+		if !liveBack[name] && !regexp.MustCompile(`\b`+regexp.QuoteMeta(name)+`\b`).MatchString(refText) {
+			deadName[name] = true
+		}
+	}
+	for name := range deadName {
+		delete(s.Servers, name)
+		delete(s.Backends, name)
+	}
+	canonPort := func(port string) string {
+		b, ok := port2back[port]
+		if !ok {
+			return ""
+		}
+		if c, ok := ren[b]; ok {
+			b = c
+		}
+		return "_auth_proxy<" + b + ">"
+	}
+	for port := range port2back {
+		ren["_auth_"+port] = canonPort(port)
+	}
+	fix := func(t string) string {
+		t = authBackRe.ReplaceAllStringFunc(t, func(n string) string {
+			if c, ok := ren[n]; ok {
+				return c
+			}
+			return n
+		})
+		t = authProxyRe.ReplaceAllStringFunc(t, func(n string) string {
+			if c, ok := ren[n]; ok {
+				return c
+			}
+			return n
+		})
+		t = localAddrRe.ReplaceAllStringFunc(t, func(a string) string {
+			if c := canonPort(a[len("127.0.0.1:"):]); c != "" {
+				return "127.0.0.1:" + c
+			}
+			return a
+		})
+		t = soIDRe.ReplaceAllStringFunc(t, func(a string) string {
+			if p, ok := id2port[a[len("so_id "):]]; ok {
+				return "so_id <" + canonPort(p) + ">"
+			}
+			return a
+		})
+		return t
+	}
+	for k, v := range s.Routes {
+		s.Routes[k] = fix(v)
+	}
+	srv := map[string][]string{}
+	for k, v := range s.Servers {
+		for i := range v {
+			v[i] = fix(v[i])
+		}
+		srv[fix(k)] = v
+	}
+	s.Servers = srv
+	bk := map[string][]string{}
+	for k, v := range s.Backends {
+		for i := range v {
+			v[i] = fix(v[i])
+		}
+		bk[fix(k)] = v
+	}
+	s.Backends = bk
+	// static text: the lines of the auth frontend are canonicalised and sorted (their order follows the numbering)
+	var out []string
+	for i := 0; i < len(s.Static); {
+		out = append(out, s.Static[i])
+		j := i + 1
+		for j < len(s.Static) && strings.HasPrefix(s.Static[j], "  ") {
+			j++
+		}
+		body := append([]string(nil), s.Static[i+1:j]...)
+		f := strings.Fields(s.Static[i])
+		if len(f) == 2 && f[0] == "frontend" && authFront[f[1]] {
+			var live []string
+			binds := 0
+			for k := range body {
+				if m := bindIDRe.FindStringSubmatch(body[k]); m != nil {
+					if deadPort[m[2]] {
+						continue
+					}
+					binds++
+					live = append(live, m[1]+"bind 127.0.0.1:"+canonPort(m[2])+body[k][len(m[0]):])
+				} else if m := bindLocalRe.FindStringSubmatch(body[k]); m != nil {
+					if deadPort[m[1]] {
+						continue
+					}
+					binds++
+					live = append(live, "  bind 127.0.0.1:"+canonPort(m[1]))
+				} else if f2 := strings.Fields(body[k]); len(f2) >= 2 && f2[0] == "use_backend" {
+					// `use_backend X [if { so_id N }]`: the proxy it belongs to is named, the socket id is a label
+					port := ""
+					if m := soIDRe.FindStringSubmatch(body[k]); m != nil {
+						port = id2port[m[1]]
+					} else if len(f2) == 2 {
+						for p2, b2 := range port2back {
+							if b2 == f2[1] {
+								port = p2
+							}
+						}
+					}
+					if port == "" {
+						live = append(live, fix(body[k]))
+					} else if !deadPort[port] {
+						live = append(live, "  use_backend "+fix(f2[1])+" <- "+canonPort(port))
+					}
+				} else {
+					live = append(live, fix(body[k]))
+				}
+			}
+			if binds == 0 {
+				// no live proxy: a fresh controller writes no auth frontend at all
+				out = out[:len(out)-1]
+				i = j
+				continue
+			}
+			body = live
+			sort.Strings(body)
+		} else {
+			for k := range body {
+				body[k] = fix(body[k])
+			}
+		}
+		out = append(out, body...)
+		i = j
+	}
+	s.Static = out
 }
 
 func containsFileList(l []string) bool {
